@@ -5,6 +5,7 @@ import (
 	"log"
 	"time"
 
+	"github.com/jcmturner/gofork/encoding/asn1"
 	"github.com/jcmturner/gokrb5/v8/config"
 	"github.com/jcmturner/gokrb5/v8/credentials"
 	"github.com/jcmturner/gokrb5/v8/crypto"
@@ -219,4 +220,48 @@ func VH_C04_GetPACType() {
 	}
 	t.GetPACType(kt, nil, log.New(io.Discard, "", 0))
 	zzverif.Reach("returned")
+}
+
+// ---- C20: re-encoding a message after it was decrypted never puts the decrypted secrets on the wire -------
+
+// VH_C20_MarshalAfterDecrypt: every message type that keeps its decrypted part next to the encrypted
+// one; the decrypted part holds secret keys / user data (as after DecryptEncPart / DecryptAuthenticator).
+func VH_C20_MarshalAfterDecrypt() {
+	skey := types.EncryptionKey{KeyType: 18, KeyValue: zzverif.Secret(16)}
+	sub := types.EncryptionKey{KeyType: 18, KeyValue: zzverif.Secret(16)}
+	tkt := Ticket{TktVNO: 5, Realm: "R", SName: types.NewPrincipalName(2, "HTTP/h"), EncPart: types.EncryptedData{EType: 18, KVNO: 1, Cipher: zzverif.Bytes(2)}}
+	tkt.DecryptedEncPart = EncTicketPart{Flags: types.NewKrbFlags(), Key: skey, CRealm: "R", CName: types.NewPrincipalName(1, "u")}
+	var b []byte
+	var err error
+	switch zzverif.Param("type") {
+	case 0:
+		b, err = tkt.Marshal()
+	case 1:
+		a := APReq{PVNO: 5, MsgType: 14, APOptions: types.NewKrbFlags(), Ticket: tkt, EncryptedAuthenticator: types.EncryptedData{EType: 18, Cipher: zzverif.Bytes(2)}}
+		a.Authenticator = types.Authenticator{AVNO: 5, CRealm: "R", CName: types.NewPrincipalName(1, "u"), SubKey: sub}
+		b, err = a.Marshal()
+	case 2:
+		var k ASRep
+		k.PVNO, k.MsgType, k.CRealm, k.CName, k.Ticket = 5, 11, "R", types.NewPrincipalName(1, "u"), tkt
+		k.EncPart = types.EncryptedData{EType: 18, Cipher: zzverif.Bytes(2)}
+		k.DecryptedEncPart = EncKDCRepPart{Key: sub, Nonce: 1, SRealm: "R", SName: types.NewPrincipalName(2, "krbtgt/R")}
+		b, err = k.Marshal()
+	case 3:
+		var k TGSRep
+		k.PVNO, k.MsgType, k.CRealm, k.CName, k.Ticket = 5, 13, "R", types.NewPrincipalName(1, "u"), tkt
+		k.EncPart = types.EncryptedData{EType: 18, Cipher: zzverif.Bytes(2)}
+		k.DecryptedEncPart = EncKDCRepPart{Key: sub, Nonce: 1, SRealm: "R", SName: types.NewPrincipalName(2, "HTTP/h")}
+		b, err = k.Marshal()
+	case 4:
+		k := KRBPriv{PVNO: 5, MsgType: 21, EncPart: types.EncryptedData{EType: 18, Cipher: zzverif.Bytes(2)}}
+		k.DecryptedEncPart = EncKrbPrivPart{UserData: sub.KeyValue} // e.g. the new password of a kpasswd request
+		b, err = k.Marshal()
+	case 5:
+		seq := []Ticket{tkt, tkt}
+		var rv asn1.RawValue
+		rv, err = MarshalTicketSequence(seq)
+		b = rv.Bytes
+	}
+	zzverif.Reach("encoded")
+	zzverif.Public("wire-encoding-after-decrypt", b, err)
 }
